@@ -26,8 +26,8 @@ def factories():
                                          ResidualFSQ, ResidualLFQ, LatentQuantize, GroupedResidualFSQ, GroupedResidualLFQ)
     F = []
 
-    def add(name, mk, dim, mask=False, image=False, fwd_kw=None):
-        F.append(dict(name=name, mk=mk, dim=dim, mask=mask, image=image, fwd_kw=fwd_kw or {}))
+    def add(name, mk, dim, mask=False, image=False, fwd_kw=None, mkx=None):
+        F.append(dict(name=name, mk=mk, dim=dim, mask=mask, image=image, fwd_kw=fwd_kw or {}, mkx=mkx))
     add('vq-ema', lambda: VectorQuantize(dim=4, codebook_size=6, decay=0.5), 4, mask=True)
     add('vq-cosine-expiry', lambda: VectorQuantize(dim=4, codebook_size=6, use_cosine_sim=True, decay=0.5, threshold_ema_dead_code=2), 4, mask=True)
     add('vq-heads-sep-expiry', lambda: VectorQuantize(dim=4, codebook_size=5, heads=2, codebook_dim=2, separate_codebook_per_head=True, threshold_ema_dead_code=1, decay=0.25), 4)
@@ -64,6 +64,10 @@ def factories():
     from vlib import zoo
     for zname, zc, zkw in zoo.configs():
         add(zname, (lambda zkw=zkw: VectorQuantize(**zkw())), zkw()['dim'])
+    import torch
+    for kind in ('fsq', 'lfq', 'res'):
+        for zname, zc, zmk in zoo.class_configs(kind):
+            add(zname, zmk, zoo.zoo_dim(kind, zc), mkx=(lambda kind=kind, zc=zc: zoo.zoo_input(kind, zc, torch)))
     return F
 
 
@@ -103,6 +107,8 @@ def correspond(ctx, scale):
                 failures.append({'key': f'{f["name"]}:construct', 'what': repr(ex), 'case': dict(name=f['name'])})
                 break
             def make_x():
+                if f.get('mkx'):
+                    return f['mkx']()
                 if f['image']:
                     return torch.randn(2, f['dim'], 3) if 'latent' in f['name'] else torch.randn(2, f['dim'], 2, 3)
                 return torch.randn(2, 4, f['dim'])
